@@ -1501,14 +1501,29 @@ class _ProtoBuilder:
                     "Operation, but is missing a response type or "
                     "metadata type.",
                 )
-            response_key = service_address.resolve(op.response_type)
-            metadata_key = service_address.resolve(op.metadata_type)
             lro = wrappers.OperationInfo(
-                response_type=self.api_messages[response_key],
-                metadata_type=self.api_messages[metadata_key],
+                response_type=self._resolve_lro_type(
+                    service_address, op.response_type
+                ),
+                metadata_type=self._resolve_lro_type(
+                    service_address, op.metadata_type
+                ),
             )
 
         return lro
+
+    def _resolve_lro_type(
+        self, service_address: metadata.Address, selector: str
+    ) -> wrappers.MessageType:
+        """Look up an operation_info type name, fully-qualified or relative."""
+        key = service_address.resolve(selector)
+        if key not in self.api_messages:
+            # A nested type named relative to the package (`Outer.Inner`)
+            # has a dot in it as well.
+            relative_key = f'{".".join(service_address.package)}.{selector}'
+            if relative_key in self.api_messages:
+                key = relative_key
+        return self.api_messages[key]
 
     def _maybe_get_extended_lro(
         self,
